@@ -183,9 +183,16 @@ func putClassAdToMessageWithOptions(m *Message, ad *classad.ClassAd, config *Put
 	// Write MyType and TargetType unless excluded
 	excludeTypes := (config.Options & PutClassAdNoTypes) != 0
 	if !excludeTypes {
+		// MyType/TargetType are sent EVALUATED, as the cleartext trailer of the ad,
+		// outside the privacy filters and outside put_secret. Evaluate them on a view
+		// of the ad without its private attributes, so that a type expression which
+		// refers to one (MyType = ClaimId) cannot carry the secret's value past the
+		// filters, or around the encryption of putSecretExpr.
+		typeAd := adWithoutPrivate(ad, allAttrs, config.EncryptedAttrs)
+
 		// Write MyType (empty string if not present)
 		myType := ""
-		if myTypeStr, ok := ad.EvaluateAttrString("MyType"); ok {
+		if myTypeStr, ok := typeAd.EvaluateAttrString("MyType"); ok {
 			myType = myTypeStr
 		}
 		if err := m.PutString(ctx, myType); err != nil {
@@ -194,7 +201,7 @@ func putClassAdToMessageWithOptions(m *Message, ad *classad.ClassAd, config *Put
 
 		// Write TargetType (empty string if not present)
 		targetType := ""
-		if targetTypeStr, ok := ad.EvaluateAttrString("TargetType"); ok {
+		if targetTypeStr, ok := typeAd.EvaluateAttrString("TargetType"); ok {
 			targetType = targetTypeStr
 		}
 		if err := m.PutString(ctx, targetType); err != nil {
@@ -718,6 +725,28 @@ func filterAttributesByWhitelist(allAttrs []string, ad *classad.ClassAd, whiteli
 	}
 
 	return result
+}
+
+// adWithoutPrivate returns the ad to evaluate MyType/TargetType in: ad itself when
+// none of its attributes is private (the common case -- no copy), else a copy with
+// every private attribute (V1, V2 and the caller's EncryptedAttrs) removed. The copy
+// shares the attribute values and keeps the evaluation scopes of the original.
+func adWithoutPrivate(ad *classad.ClassAd, attrs []string, encryptedAttrs []string) *classad.ClassAd {
+	for _, attr := range attrs {
+		if !ClassAdAttributeIsPrivateAny(attr) && !isAttrInList(attr, encryptedAttrs) {
+			continue
+		}
+		view := ad.Redacted()
+		for _, a := range attrs {
+			if isAttrInList(a, encryptedAttrs) {
+				view.Delete(a)
+			}
+		}
+		view.SetParent(ad.GetParent())
+		view.SetTarget(ad.GetTarget())
+		return view
+	}
+	return ad
 }
 
 // isAttrInList checks if an attribute is in the given list
